@@ -38,6 +38,7 @@ func checkC08(c *Ctx, r *Report) {
 	lenNoRdlength(c, r, "C08.R1.len-no-rdlength")
 	c08StringCap(c, r, "C08.R3.string-cap")
 	packMapThreaded(c, r, "C08.R2.pack-map", "Len() under-counts the message and Pack fails for lack of room")
+	bitmapLengthAgreement(c, r, "C08.R1.bitmap-length", "Len() is short for NSEC / NSEC3 / CSYNC records whose highest type in a window is divisible by 8, and Pack fails for lack of room")
 }
 
 func c08Header(c *Ctx, r *Report) {
